@@ -6,15 +6,16 @@ rng=random.Random(seed)
 g=G.Gen(rng)
 cases=[g.case() for _ in range(n)]
 obs=C.run_impl("impl_checker.py", {"cases": cases})
-HEADER="From ICV Require Import Base Bind Checker CheckerCase.\nOpen Scope string_scope.\nOpen Scope list_scope.\nOpen Scope Z_scope.\n"
+HEADER="From ICV Require Import Base Bind Checker CheckerCase CheckerSpec CheckerOracle.\nOpen Scope string_scope.\nOpen Scope list_scope.\nOpen Scope Z_scope.\n"
 terms=[]; idx=[]
 nde=0
 for i,(c,o) in enumerate(zip(cases,obs)):
     if "defn_error" in o:
         nde+=1; print("DEFN ERROR", o, json.dumps(c)[:300]); continue
-    terms.append("[if obs_eqb (run_case %s) %s then 0 else 1]" % (G.cq_case(c), G.cq_obs(o))); idx.append(i)
+    terms.append("(let c := %s in let o := %s in let mo := run_case c in [if obs_eqb mo o then 0 else 1; if spec_C01 c (fst o) (snd o) then 0 else 1; if spec_C02 c (fst o) (snd o) then 0 else 1; if spec_C01 c (fst mo) (snd mo) then 0 else 1; if spec_C02 c (fst mo) (snd mo) then 0 else 1])" % (G.cq_case(c), G.cq_obs(o))); idx.append(i)
 res=C.coq_eval_lists(HEADER, terms, name="dev", chunk=100)
-bad=[idx[j] for j,r in enumerate(res) if r!=[0]]
+bad=[idx[j] for j,r in enumerate(res) if any(r)]
+print([r for r in res if any(r)][:10])
 print("cases",n,"defn errors",nde,"disagreements",len(bad))
 for i in bad[:int(sys.argv[3]) if len(sys.argv)>3 else 3]:
     print(json.dumps(cases[i])); print(json.dumps(obs[i]))
